@@ -9,7 +9,7 @@ def isExhaustiveFnLoop (cost budget : Rat) : List (Bool × Rat) → (Option Bool
   | x :: xs => (if ((!x.1) && (decide ((x.2 + cost) ≤ budget))) then (some false) else (isExhaustiveFnLoop cost budget xs))
 
 def isExhaustiveFn (cost budget : Rat) (xs : List (Bool × Rat)) : Bool :=
-  (fun r => (match r with | some v => v | none => true)) (isExhaustiveFnLoop cost budget xs)
+  (fun r => (Option.getD r true)) (isExhaustiveFnLoop cost budget xs)
 
 def maxCardFnLoop (budget : Rat) : Rat → Rat → List (Rat) → (Rat × Rat)
   | acc, selected, [] => (acc, selected)
